@@ -29,7 +29,7 @@ RULE = (
     "other texts in between); non-trivial = text of >= 2 tokens; distinct = distinct texts"
 )
 ASSUMPTIONS = ["an invalid regular expression inside a pattern counts as a reported definition error, not as a well-formed text"]
-MUST_SEE = [
+MUST_SEE = ["regex_inner_whitespace", 
     "xpath_accepted", "xpath_rejected", "pattern_accepted", "pattern_rejected", "mutations_still_valid", "whitespace_variants", "recompiles_cold",
     "recompiles_hot", "unknown_class", "non_node_class", "duplicate_capture", "var_before_capture", "var_inside_own_capture", "random_strings", "late_defined_class", "compile_after_rejected", "escaped_quote_regexes",
 ]
@@ -79,6 +79,7 @@ def run_shard(ctx):
                     n = n[ix]
             panel_nodes.append(n)
     node_index = {id(n): i for i, n in enumerate(panel_nodes)}
+    ws_leaves = [U.cls[f"{P}Leaf"](v=i, s=x) for i, x in enumerate(("a b", "a  b", "a\tb", "ab", " a b", "a b ", "a   b"))]
 
     def fields_of(n):
         return [f.name for f in U.all_fields(type(n).__name__) if f.name not in ("id", "content_id", "origin")]
@@ -348,6 +349,24 @@ def run_shard(ctx):
         for rx in ('a\\"', '\\"x\\"', 'say \\"hi\\"', '\\"', 'x\\\\', '[\\"a]+'):
             ctx.count("escaped_quote_regexes")
             check_pattern(f'({P}Leaf @s="{rx}")', "accept", "escaped-quote-regex")
+        # regex literals differing only in the white space inside the quotes are different patterns
+        if rnd % 10 == 1:
+            import re as _re
+
+            rxs = ["a b$", "a  b$", "a\\tb", "a *b$", " a b", "a b $", "a\tb", "ab$", "a   b"]
+            rng.shuffle(rxs)
+            for rx in rxs:
+                for text in (f'({P}Leaf @s="{rx}")', f'({P}Leaf  @s="{rx}" )'):
+                    ctx.evaluations += 1
+                    ctx.count("regex_inner_whitespace")
+                    m, msg = NodeMatcher.from_pattern(text)
+                    if m is None:
+                        bad("pattern-wrong-verdict", "well-formed pattern rejected", text=text, kind="regex-inner-whitespace", msg=str(msg)[:100])
+                        continue
+                    got = [m.match(lf)[0] for lf in ws_leaves]
+                    exp = [_re.match(rx, lf.s) is not None for lf in ws_leaves]
+                    if got != exp:
+                        bad("pattern-behaviour", "a pattern's regex is not applied as written (white space inside the literal matters)", text=text, got=got, exp=exp, values=[lf.s for lf in ws_leaves])
         ctx.count("random_strings", 2)
         check_pattern("".join(rng.choice(P_ALPHA) for _ in range(rng.randint(0, 16))), None, "random")
         check_pattern("(" + "|".join(rng.choice(class_names) for _ in range(rng.randint(20, 60))) + ")", "accept", "long-alternation")
